@@ -20,6 +20,13 @@ Streams
               external oracle whose result is only CHECKED for the promised structure (label: check, not proof)
   guard       argument tuples at and around the boundaries: ValueError verdict of obtain_* against the model guard
   malformed   non-integer tokens, wrong arity, unknown / repeated options, missing save information: ValueError expected
+Run first, as a corpus (notes/LARGE_STREAMS.md):
+  huge        more than 65536 / 131072 vertices or edges (direct calls and command line specifications with 'save' in every
+              in-house format): the model replays draws in quadratic time, so only the promised structure is checked
+  thresholds  sizes, degrees, edge counts, option arguments at 15..1025 and at the sparse / dense switches; model demanded
+  shapes      CompleteBipartiteGraph under every option and 'save', vertices of large degree, one-vertex sides, complete and
+              empty results, repeated / wrapping shift offsets
+  history     one graph object taken through a random sequence of options and API edits; each option judged on the state it found
 """
 import collections.abc
 import itertools
